@@ -417,6 +417,9 @@ def main():
         h = cfg["harness"]
         ok, blog, bstat = buildlib.build_harness(os.path.join(VERIF, h["src"]), exe, h.get("flavor", "plain"),
                                                  None if h.get("lib") else h.get("repo_sources", []))
+        if not ok and h.get("fallback_lib") and not h.get("lib"):
+            # optional: the listed repo_sources no longer link (a new dependency); retry against the whole library
+            ok, blog, bstat = buildlib.build_harness(os.path.join(VERIF, h["src"]), exe, h.get("flavor", "plain"), None)
         if not ok:
             # the tree does not compile with our harness: that is not a property violation we can decide;
             # report it as a broken correspondence
